@@ -23,6 +23,9 @@ int verif_exc;
 #define VERIF_CANARY_POINT __CPROVER_assert(0, "VERIF_CANARY end of harness reachable")
 #else
 #define VERIF_CANARY_POINT
+/* mem-initializer 'a(expr)' of an extracted constructor -> self->a = CTOR_INIT(expr) */
+#define CTOR_INIT(e) (e)
+
 #endif
 
 /* std::min / std::max on the integer and FP types used by the extracted code */
@@ -50,5 +53,8 @@ uint8_t nondet_u8(void);
 _Bool nondet_bool(void);
 size_t nondet_size(void);
 double nondet_double(void);
+
+/* mem-initializer 'a(expr)' of an extracted constructor -> self->a = CTOR_INIT(expr) */
+#define CTOR_INIT(e) (e)
 
 #endif
